@@ -15,5 +15,5 @@ fails=verif.diff_streams(lines,ans)
 fails.sort(key=lambda f: 0 if f['kind']=='protocol' else 1 if f['kind']=='violation' else 2)
 print(m,'lines',len(lines),'fails',len(fails), {k:sum(1 for f in fails if f['kind']==k) for k in ('protocol','violation','drift')})
 for f in fails[:int(sys.argv[2]) if len(sys.argv)>2 else 8]:
-    print('  ',f['kind'],'L%d'%f['line_no'],'why='+f.get('why',''),f['op'][:160],'| impl',f['impl'][:80],'| model',f['model'][:80],'| spec',f['spec'][:80], '|', lines[f['case_start']])
+    print('  ',f['kind'],'L%d'%f['line_no'],'why='+f.get('why',''),f['op'][:160],'| impl',f['impl'][:200],'| model',f['model'][:80],'| spec',f['spec'][:80], '|', lines[f['case_start']])
 PY
